@@ -3,7 +3,7 @@
         bit-for-bit against the compiled C.
    QN : exact rationals, the domain in which the algebraic theorems are stated. *)
 
-From Coq Require Import ZArith QArith List String PrimFloat Uint63.
+From Coq Require Import ZArith QArith Qabs List String PrimFloat Uint63.
 From FFCX Require Import LN.
 Import ListNotations.
 Open Scope Z_scope.
@@ -65,4 +65,34 @@ Definition q_of_lit (m e : Z) : Q :=
   | Z0 => inject_Z m
   | Zpos p => inject_Z (m * 2 ^ e)
   | Zneg p => Qmake m (2 ^ p)%positive
+  end.
+
+(* exact rational execution (normalised after every operation) *)
+Definition q_lt (a b : Q) : bool := match Qcompare a b with Lt => true | _ => false end.
+Definition q_le (a b : Q) : bool := match Qcompare a b with Gt => false | _ => true end.
+Open Scope string_scope.
+Definition q_fn (name : string) (args : list Q) : Q :=
+  match args with
+  | [x] => if String.eqb name "abs" then Qred (Qabs x) else 0%Q
+  | _ => 0%Q
+  end.
+Close Scope string_scope.
+
+Definition q_val := @val Q.
+
+Definition q_run :=
+  @run_kernel Q inject_Z q_of_lit (fun a b _ _ => q_of_lit a b)
+        (fun a b => Qred (a + b)) (fun a b => Qred (a - b)) (fun a b => Qred (a * b))
+        (fun a b => Qred (a / b)) (fun a => Qred (- a))
+        Qeq_bool q_lt q_le q_fn.
+
+Definition q_same (a b : option (list q_val)) : bool :=
+  match a, b with
+  | Some l1, Some l2 =>
+      (Nat.eqb (List.length l1) (List.length l2)) &&
+      forallb (fun p => match p with
+                        | (VF x, VF y) => Qeq_bool x y
+                        | _ => false
+                        end) (combine l1 l2)
+  | _, _ => false
   end.
